@@ -22,10 +22,11 @@ EXPLANATION = (
     "themselves: no cast, arithmetic or rounding between the column and the order statistics)."
 )
 NOT_DECIDED = "the >= min_freq / <= 2.5*min_freq bucket sizes on data (numerical, needs execution)"
-FLOORS = {"R-thresholds": 11, "R-boundaries-sorted-unique-inf": 4, "R-order-statistic": 3, "R-nan-separate": 5, "R-value-truthiness": 10, "R-order-only": 4}
+FLOORS = {"R-forward-sentinels": 8, "R-thresholds": 11, "R-boundaries-sorted-unique-inf": 4, "R-order-statistic": 4, "R-nan-separate": 5, "R-value-truthiness": 10, "R-order-only": 4}
 
 
 def check(ctx):
+    quant.check_forward_sentinels(ctx, "R-forward-sentinels")  # a custom str_nan reaches every inner discretizer: missing values stay apart
     quant.check_thresholds(ctx, "R-thresholds")
     quant.check_boundaries(ctx, "R-boundaries-sorted-unique-inf")
     quant.check_order_statistic(ctx, "R-order-statistic")
